@@ -208,6 +208,10 @@ def worker_init(repo, assertions=False):
     assert os.path.abspath(anytree.__file__).startswith(os.path.abspath(repo)), anytree.__file__
     from . import nodes  # noqa
 
+    # the library's recursive properties and iterators use a few frames per tree level: the chains of the large drawn
+    # instances (hundreds of levels) must not depend on how deep the harness's own call stack happens to be
+    sys.setrecursionlimit(20000)
+
 
 @core.safe_worker
 def replay_chunk(args):
